@@ -72,6 +72,21 @@ CHECKS = {
         "are not claimed by C02 and not checked. Categories without dagger (biclosed rules, cartesian "
         "boxes) skip dagger laws, counted as dagger_unsupported.",
         "DESIGN.md 4/C02"),
+    "C03": (
+        "exhaustive enumeration of every value and every ordered pair of a per-class pool of differently "
+        "built types/boxes/diagrams/sums, == / hash / repr of the real classes against a reference "
+        "structural reader",
+        "For cat, monoidal and rigid: every pool value is checked for reflexivity, stable hash, "
+        "eval(repr(v)) == v with identical structure, and box == Id(dom) >> box with equal hashes; every "
+        "ordered pair for (a == b) iff the reference reader finds the same dom/cod/boxes/offsets, "
+        "symmetry, a != b consistency, equal => equal hashes, dict lookup and functor-mapping lookup. "
+        "Pools contain payload menus (None, ints, floats, bools, lists, dicts, falsy values), daggers, "
+        "adjoint types of winding -2..2, cups/caps/swaps, sums, and up to five alternative constructions "
+        "of every universe diagram.",
+        "Known findings (hash of repr for numerically-equal names/payloads of different Python type and "
+        "PRO vs Ty) are listed in known_findings.json by exact signature. String payloads excluded "
+        "(constructor recursion, outside the listed properties).",
+        "DESIGN.md 4/C03"),
 }
 
 PENDING_REASON = ("check not built yet in this session (planned: bounded exhaustive exploration as in "
